@@ -21,7 +21,7 @@ from inference.deadline import Deadline
 # ---------------------------------------------------------------------------
 from inference.inference import Inference
 from inference.optimizer import create_optimizer
-from inference.tseitin_transformation import TseitinTransformation
+from inference.tseitin_transformation import QUERY_KEY, TseitinTransformation
 from infocf.log_setup import get_logger
 
 logger = get_logger(__name__)
@@ -81,12 +81,12 @@ class LexInf(Inference):
         # self._translation_start()
         tseitin_transformation = TseitinTransformation(self.epistemic_state)
         translated_query = tseitin_transformation.query_to_cnf(query)
-        self.epistemic_state["v_cnf_dict"][0] = translated_query[0]
-        self.epistemic_state["f_cnf_dict"][0] = translated_query[1]
+        self.epistemic_state["v_cnf_dict"][QUERY_KEY] = translated_query[0]
+        self.epistemic_state["f_cnf_dict"][QUERY_KEY] = translated_query[1]
         wcnf_v = WCNF()
         wcnf_f = WCNF()
-        [wcnf_v.append(c) for c in self.epistemic_state["v_cnf_dict"][0]]
-        [wcnf_f.append(c) for c in self.epistemic_state["f_cnf_dict"][0]]
+        [wcnf_v.append(c) for c in self.epistemic_state["v_cnf_dict"][QUERY_KEY]]
+        [wcnf_f.append(c) for c in self.epistemic_state["f_cnf_dict"][QUERY_KEY]]
         if not weakly:
             result = self._rec_inference(
                 wcnf_v, wcnf_f, len(self.epistemic_state["partition"]) - 1, deadline
